@@ -121,6 +121,12 @@ def wl_honest(ctx, config):
             elif kind == 7:
                 # key count mismatch: one key fewer / one more than the signature says
                 vcase(ctx, config, K, sb, "mut:list_shorter", on=K.on[:-1], off=K.off[:-1], on_obj=K.on_obj[:-1], off_obj=K.off_obj[:-1])
+                # a well-formed signature for MORE keys than the lists hold, whose first nk scalars are the genuine ones (count byte raised,
+                # in-range scalars appended): a verifier that iterates over the caller's count instead of comparing the counts accepts it
+                kx = rng.choice((1, 1, 2, 3, 255 - nk)) if nk < 255 else 0
+                if kx > 0 and nk + kx <= 255:
+                    ext = bytes([nk + kx]) + sb[1:] + b''.join(b32(rng.randrange(1, n)) for _ in range(kx))
+                    vcase(ctx, config, K, ext, "mut:signature_extended_to_more_keys")
                 if nk < 255:
                     P = mulG(rng.randrange(1, n)); Po = K.obj(P)
                     vcase(ctx, config, K, sb, "mut:list_longer", on=K.on + [P], off=K.off + [P], on_obj=K.on_obj + [Po], off_obj=K.off_obj + [Po])
